@@ -44,6 +44,40 @@ theorem prob_eq_norm_project [Semiring R] [StarRing R] (s : Fin m → Fin n) (ψ
   refine Finset.sum_congr rfl (fun x _ => ?_)
   split <;> simp
 
+/-! ### the sampled outcome -/
+
+/-- **the returned outcome is in the support of the state**, under the contract of the sampler ("`choice` returns an
+index whose probability is not zero"): some basis state compatible with the outcome has a non-zero amplitude, so the
+projection that becomes the post-measurement state is not the zero vector (and the normalisation `1/√prob` is defined). -/
+theorem outcome_has_nonzero_probability [Semiring R] [StarRing R] (s : Fin m → Fin n) (ψ : Vec n R) (o : Bits m)
+    (hcontract : reduceToProbability s ψ o ≠ 0) :
+    (∃ x : Bits n, x.sel s = o ∧ ψ x ≠ 0) ∧ project s o ψ ≠ fun _ => 0 := by
+  have h1 : ∃ x : Bits n, x.sel s = o ∧ ψ x ≠ 0 := by
+    by_contra hno
+    apply hcontract
+    rw [prob_eq_born]
+    refine Finset.sum_eq_zero (fun x hx => ?_)
+    have hx' : x.sel s = o := (Finset.mem_filter.1 hx).2
+    have : ψ x = 0 := by
+      by_contra h0; exact hno ⟨x, hx', h0⟩
+    rw [this, mul_zero]
+  refine ⟨h1, fun hz => ?_⟩
+  obtain ⟨x, hx, hψ⟩ := h1
+  have := congrFun hz x
+  simp only [project, Bits.beq_iff, hx, if_true] at this
+  exact hψ this
+
+/-- conversely, over `ℂ`-like ordered star rings an outcome compatible with a non-zero amplitude has positive
+probability, so the contract is satisfiable exactly on the support -/
+theorem prob_pos_of_support [Semiring R] [PartialOrder R] [StarRing R] [StarOrderedRing R]
+    (hstar : ∀ z : R, star z * z = 0 → z = 0)
+    (s : Fin m → Fin n) (ψ : Vec n R) (x : Bits n) (hψ : ψ x ≠ 0) : 0 < reduceToProbability s ψ (x.sel s) := by
+  rw [prob_eq_born]
+  have hx : x ∈ Finset.univ.filter (fun y : Bits n => y.sel s = x.sel s) := by simp
+  have hpos : 0 < star (ψ x) * ψ x :=
+    lt_of_le_of_ne (star_mul_self_nonneg _) (fun h => hψ (hstar _ h.symm))
+  exact lt_of_lt_of_le hpos (Finset.single_le_sum (f := fun y => star (ψ y) * ψ y) (fun y _ => star_mul_self_nonneg _) hx)
+
 /-! ### the post-measurement state is the (normalised) projection -/
 
 /-- `project` is multiplication by the projector `P_o` -/
@@ -216,5 +250,13 @@ example : star (5/3 : ℚ) = 5/3 ∧
 
 /-- `ℚ` (and `ℝ`, `ℂ` with its star order) satisfy the order hypotheses of `prob_nonneg` -/
 example (s : Fin 1 → Fin 2) (ψ : Vec 2 ℚ) (o : Bits 1) : 0 ≤ reduceToProbability s ψ o := prob_nonneg s ψ o
+
+/-- the definiteness hypothesis of `prob_pos_of_support` holds in `ℚ` (and `ℝ`, `ℂ`) -/
+example : ∀ z : ℚ, star z * z = 0 → z = 0 := by
+  intro z h; simpa using h
+
+/-- the contract of `outcome_has_nonzero_probability` is satisfiable: outcome 1 of qubit 1 of (1,2,0,3) -/
+example : reduceToProbability (![1] : Fin 1 → Fin 2) (lookup (n := 2) #[(1 : Int), 2, 0, 3]) (fun _ => true) ≠ 0 := by
+  decide
 
 end Numqi.C11
